@@ -33,6 +33,10 @@ CHECKS.update({
  "C15": ("model_checking", "IosReload.tla (arm, transmissions of one or two lines, banners per line, re-arm, cancel, write memory) is model-checked; every change line of a real IOS approve x banner form (bare at every byte offset of the echo, banner + fresh prompt before / after the echo) x kind (2:00, 1:00), and pairs of banners, are replayed against the simulator; IosReloadTrace.tla checks on the transcript: every change line under an armed reload, write memory only after cancel, nothing pending after success, one-minute warning answered by `do reload in N` before the next transmission, same commands delivered and same exit status as the banner-free run.", SESS_NOTE, SESS_TECH, "§7 C15"),
 })
 
+CHECKS.update({
+ "C12": ("model_checking", "Lock.tla (3 processes, drc / do-approve step order, kill anywhere) is model-checked for NoOverlap, LoserWritesNothing, HolderOnly, LockNotStuck; schedule classes (holder front-end x verb x phase at which contenders start: after the lock, login, config fetch, first change, save, before the status write, before exit x contender front-end / spelling of the device / verb x holder released or SIGKILLed) are replayed with real processes gated by the simulator and the verif hooks; LockTrace.tla checks that every contender fails at once with 'Approve in progress', never talks to the device, leaves status/history/logs byte-identical, and that a later run proceeds.", "gates only at the listed phases; one device type (ASA) for the console dialogue; SIGKILL as kill", "TLC model check of Lock.tla + trace validation of gated real-process schedules", "§7 C12"),
+})
+
 NA_REASONS = {
  "C20": "quantifies over mutated bytes fed to parsers with oracle 'process did not panic': no state machine to specify; needs mutation fuzzing, a different technique (DESIGN.md §8)",
 }
@@ -50,8 +54,8 @@ na = [{"property_id": p["id"], "reason": NA_REASONS.get(p["id"], "check not buil
 m = {
  "version": 1,
  "setup_cmd": "./check setup",
- "hooks": {"guard": "verif", "enable": "go build -tags verif (no hook is needed so far; all observation points are external)",
-           "baseline_off_cmd": "/verif/baseline_off.sh", "source_commits": [], "add_only": True},
+ "hooks": {"guard": "verif", "enable": "go build -tags verif (pkg/verifhook.Gate: scheduler gates after-lock / before-status / before-exit, used by C12; no-op without the tag)",
+           "baseline_off_cmd": "/verif/baseline_off.sh", "source_commits": ["ae4ef1a"], "add_only": True},
  "engines": [{"name": "check", "path": "/verif/check", "serves_properties": sorted(CHECKS),
               "kind_free_text": "Python driver: TLC on specs/ + Go/Python harness against binaries built from /repo's working tree"}],
  "checks": checks, "not_applicable": na,
